@@ -143,8 +143,12 @@ func nativeOp(g *gor, db **sqlittle.DB, w []string) string {
 		var cs []string
 		cs, err = (*db).Columns(w[1])
 		d.add(strings.Join(cs, ","))
-	case "reopen":
+	case "reopen", "reopen2":
 		(*db).Close()
+		if w[0] == "reopen2" {
+			// the usual `defer db.Close()` after an explicit, error checked Close(): a second Close of the SAME handle
+			(*db).Close()
+		}
 		*db, err = sqlittle.Open(files[g.file])
 		if err != nil {
 			return "reopen-failed"
